@@ -129,3 +129,27 @@ def parent_context(tree, pos):
         if field in ('body', 'value', 'targets', 'target', 'args', 'elt', 'key'):
             return '%s.%s' % (tname, field)
     return '%s.%s' % trail[-1]
+
+
+def base_assigned_names(src, filename, line, value_end_col):
+    """For the attribute access whose receiver ends at (line, value_end_col): if the receiver, evaluated as the first query of
+    a fresh analysis on a fresh project, is an instance of a source class, the names its BASE classes assign through self
+    (the tables InstanceValue._assigned merges); otherwise None.  Used only to classify one listed finding."""
+    import ast as _ast
+    from supp.evaluator import EvalCtx
+    proj = project()
+    s, scope = analyse(src, filename, proj)
+    for n in _ast.walk(s.tree):
+        if isinstance(n, _ast.Attribute) and n.value.end_lineno == line and n.value.end_col_offset == value_end_col:
+            ctx = EvalCtx(proj)
+            v = ctx.evaluate(n.value)
+            if type(v).__name__ != 'InstanceValue':
+                return None
+            out = set()
+            try:
+                for table in v._base_assignments():
+                    out.update(table)
+            except Exception:
+                return None
+            return out
+    return None
